@@ -26,7 +26,7 @@ def _pt_affine32(u):
     return (20.0 * np.asarray(u) - 10.0).astype(np.float32)
 
 
-PRIORS = {"affine32": _pt_affine32, "affine": targets.pt_affine, "nonlinear": targets.pt_nonlinear, "identity": targets.pt_identity}
+PRIORS = {"identity-view": targets.pt_identity_view, "affine-list": targets.pt_affine_list, "affine-index": targets.pt_affine_index, "affine32": _pt_affine32, "affine": targets.pt_affine, "nonlinear": targets.pt_nonlinear, "identity": targets.pt_identity}
 BOUNDARY = {"empty": ([], []), "tuples": ((0,), (1,)), "sets": ({0}, frozenset({1})), "none": (None, None), "per0": ([0], None), "ref1": (None, [1]), "per0ref1": ([0], [1]), "ref0": (None, [0]), "per1": ([1], None)}
 
 
@@ -37,19 +37,41 @@ class LL:
         self.f, self.mode, self.shift = f, mode, shift
         self.dtype = "float64"
         self.blob_dtype = None
+        self.blob_form = None   # None: (logl, tag) | "two": (logl, tag, 2 tag) | "vector": (logl, array([tag, 2 tag, 3 tag])) | "str": (logl, repr(tag))
+        self.ret = None         # how the log-likelihood value itself is spelled: None (Python float) | "np.float64" | "0d" | "list" / "readonly" (vectorised)
+        self.fail_countdown = None  # k: the k-th evaluation from now raises UserFailure once (a transient failure of the user's code)
         self.n = 0
         self.order = []
 
     def __call__(self, x, offset=0.0, scale=1.0):
         # `offset` / `scale` are what log_likelihood_args / log_likelihood_kwargs bind (defaults are the identity)
+        if self.fail_countdown is not None:
+            self.fail_countdown -= 1
+            if self.fail_countdown <= 0:
+                self.fail_countdown = None
+                raise UserFailure("transient failure injected into the user's likelihood")
         if self.mode == "vec":
             x = np.asarray(x)
             self.n += len(x)
-            return np.array([self.f(xi) * scale + offset + self.shift for xi in x], dtype=self.dtype)
+            out = np.array([self.f(xi) * scale + offset + self.shift for xi in x], dtype=self.dtype)
+            if self.ret == "readonly":
+                out.setflags(write=False)
+            return out
         self.n += 1
         v = self.f(x) * scale + offset + self.shift
+        if self.ret == "np.float64":
+            v = np.float64(v)
+        elif self.ret == "0d":
+            v = np.array(v)
         if self.mode == "blobs":
-            return v, targets.blob_cast(targets.blob_of(x), self.blob_dtype)
+            b = targets.blob_cast(targets.blob_of(x), self.blob_dtype)
+            if self.blob_form == "two":
+                return v, b, 2 * b
+            if self.blob_form == "vector":
+                return v, np.array([b, 2 * b, 3 * b])
+            if self.blob_form == "str":
+                return v, repr(float(b))
+            return v, b
         return v
 
 
@@ -82,6 +104,10 @@ class LazyPool(OrderedPool):
         return iter(super().map(f, xs))
 
 
+SPELL = {"int": int, "float": float, "np.int64": np.int64, "np.int32": np.int32, "np.uint8": np.uint8, "np.float64": np.float64, "np.float32": np.float32,
+         "np.bool_": np.bool_, "0-d int array": lambda v: np.array(int(v)), "0-d float array": lambda v: np.array(float(v)), "bool-as-int": int}
+
+
 def make_sampler(cfg, pool=None):
     from tempest import Sampler
 
@@ -93,10 +119,12 @@ def make_sampler(cfg, pool=None):
     ll = LL(f, mode, c["shift"])
     ll.dtype = c.get("ll_dtype", "float64")
     ll.blob_dtype = c.get("blob_dtype")
+    ll.blob_form = c.get("blob_form")
+    ll.ret = c.get("ll_return")
     per, ref = BOUNDARY[c["boundary"]]
     kw = dict(
         prior_transform=PRIORS[c["prior"]], log_likelihood=ll, n_dim=c["d"], n_particles=c["n_particles"], ess_ratio=c["ess_ratio"],
-        volume_variation=c["vv"], vectorize=(mode == "vec"), blobs_dtype=(c.get("blob_dtype") or "float64") if mode == "blobs" else None,
+        volume_variation=c["vv"], vectorize=(mode == "vec"), blobs_dtype=("O" if c.get("blob_form") == "str" else (c.get("blob_dtype") or "float64")) if mode == "blobs" else None,
         periodic=per, reflective=ref, clustering=c["clustering"], normalize=c["normalize"], cluster_every=c["cluster_every"],
         split_threshold=c["split_threshold"], n_max_clusters=c["n_max_clusters"], sample=c["sample"], n_steps=c["n_steps"],
         n_max_steps=c["n_max_steps"], resample=c["resample"], random_state=c["random_state"],
@@ -109,6 +137,9 @@ def make_sampler(cfg, pool=None):
     for k in ("output_dir", "output_label"):
         if k in c:
             kw[k] = c[k]
+    for k, sp in (c.get("spell") or {}).items():  # the same option VALUE spelled as another scalar type
+        if k in kw and kw[k] is not None:
+            kw[k] = SPELL[sp](kw[k])
     s = Sampler(**kw)
     return s, ll, c
 
@@ -328,6 +359,9 @@ class Probe:
                 if self.cfg.get("save_every") is not None:
                     args["save_every"] = self.cfg["save_every"]
                 args.update(kw)
+                for k, sp in (self.cfg.get("spell") or {}).items():
+                    if k in args and args[k] is not None:
+                        args[k] = SPELL[sp](args[k])
                 self.sampler.run(**args)
             self.completed = True
         except Horizon as e:
